@@ -325,3 +325,52 @@ def fresh_copy(ctx: Any, t: tuple, hi: int = 255, keep_mv: bool = False) -> tupl
     if k in ('es', 'ss'):
         return (k, fresh_copy(ctx, t[1], hi, keep_mv), ctx.int('fv', 0, hi), fresh_copy(ctx, t[3], hi, keep_mv))
     raise TypeError(k)
+
+
+def kind_swap(p: Any) -> Any:
+    """the "sibling" of a pattern: same ids, every constructor replaced by the one of the same arity
+    (EVar<->SVar, Exists<->Mu, Implies<->App, ESubst<->SSubst; notation applications keep their notation).
+    Used for warm-up calls: a result must not depend on what was computed before, and a memo keyed too coarsely
+    (by hash, by rendering, by ids without the constructor) confuses exactly such siblings."""
+    from frozendict import frozendict
+    from proof_generation import pattern as P
+
+    if isinstance(p, P.EVar):
+        return P.SVar(p.name)
+    if isinstance(p, P.SVar):
+        return P.EVar(p.name)
+    if isinstance(p, P.Implies):
+        return P.App(kind_swap(p.left), kind_swap(p.right))
+    if isinstance(p, P.App):
+        return P.Implies(kind_swap(p.left), kind_swap(p.right))
+    if isinstance(p, P.Exists):
+        return P.Mu(p.var, kind_swap(p.subpattern))
+    if isinstance(p, P.Mu):
+        return P.Exists(p.var, kind_swap(p.subpattern))
+    if isinstance(p, P.ESubst):
+        return P.SSubst(p.pattern, P.SVar(p.var.name), kind_swap(p.plug))
+    if isinstance(p, P.SSubst):
+        return P.ESubst(p.pattern, P.EVar(p.var.name), kind_swap(p.plug))
+    if isinstance(p, P.Instantiate):
+        return P.Instantiate(p.pattern, frozendict({k: kind_swap(v) for k, v in p.inst.items()}))
+    return p
+
+
+def id_shift(p: Any, d: int = 1) -> Any:
+    """same shape, every variable id shifted by d (metavariable ids and symbols kept)"""
+    from frozendict import frozendict
+    from proof_generation import pattern as P
+
+    if isinstance(p, P.EVar):
+        return P.EVar(p.name + d)
+    if isinstance(p, P.SVar):
+        return P.SVar(p.name + d)
+    if isinstance(p, (P.Implies, P.App)):
+        return type(p)(id_shift(p.left, d), id_shift(p.right, d))
+    if isinstance(p, (P.Exists, P.Mu)):
+        return type(p)(p.var + d, id_shift(p.subpattern, d))
+    if isinstance(p, (P.ESubst, P.SSubst)):
+        return type(p)(p.pattern, type(p.var)(p.var.name + d), id_shift(p.plug, d))
+    if isinstance(p, P.Instantiate):
+        return P.Instantiate(p.pattern, frozendict({k: id_shift(v, d) for k, v in p.inst.items()}))
+    return p
